@@ -888,7 +888,7 @@ namespace via
           if (!chunk_.parse(iter, end))
           {
             // if a parsing error (not run out of data)
-            if (iter != end)
+            if ((iter != end) || chunk_.fail())
             {
               clear();
               return Rx::INVALID;
